@@ -43,9 +43,15 @@ Definition hash_call (s : mstate) (tabs : list htab) (id : Z) : option (mstate *
             | Some v =>
                 let flags := reg s 4 in
                 match t_lookup key (h_tab t) with
-                | Some idx =>
+                | Some _ =>
                     if flags =? 1 then Some (clobber s (errno 17) 2, tabs, Running)
-                    else Some (clobber (set_maps s (set_at idx v (maps s))) 0 2, tabs, Running)
+                    else
+                      (* the kernel installs a NEW element; a pointer from an earlier lookup keeps pointing to the old one,
+                         which is no longer part of the map *)
+                      let idx' := length (maps s) in
+                      let t' := {| h_id := h_id t; h_key := h_key t; h_value := h_value t; h_max := h_max t;
+                                   h_tab := t_update key idx' (h_tab t) |} in
+                      Some (clobber (set_maps s (maps s ++ [v])) 0 2, put_tab t' tabs, Running)
                 | None =>
                     if flags =? 2 then Some (clobber s (errno 2) 2, tabs, Running)
                     else if h_max t <=? zlen (h_tab t) then Some (clobber s (errno 7) 2, tabs, Running)
